@@ -246,13 +246,13 @@ theorem countP_ge_two {α : Type} (p : α → Bool) (l : List α) (i j : Nat) (a
       | succ j =>
         simp at hi hj; subst hi
         have : 0 < l.countP p := List.countP_pos_iff.2 ⟨b, mem_of_getElem?' l j b hj, hb⟩
-        simp [List.countP_cons, ha]; omega
+        rw [List.countP_cons_of_pos ha]; omega
     | succ i =>
       cases j with
       | zero =>
         simp at hi hj; subst hj
         have : 0 < l.countP p := List.countP_pos_iff.2 ⟨a, mem_of_getElem?' l i a hi, ha⟩
-        simp [List.countP_cons, hb]; omega
+        rw [List.countP_cons_of_pos hb]; omega
       | succ j =>
         simp at hi hj
         have := ih i j hi hj (fun h => hne (by rw [h]))
